@@ -110,7 +110,8 @@ check("C03",
            "0,1,7,8,9,23,24,25; equal-length neighbours; embedded NULs; unterminated view; reserved word and near misses) under "
            "three hash personalities (real, one bucket, length-only), each on a fresh pool, source buffer scribbled after every "
            "call, every String returned so far re-read after every step and identity compared with content equality against "
-           "a std::map model; (2) sweeps: lengths 0..300, 256 byte values x 4 positions, 42 (remaining,needed) roll-over shapes "
+           "a std::map model; (1b) every sequence of <= 4 (5) interns over {pool A, pool B} x 5 words with two pools alive after a third "
+           "one lived and died, both pools re-read after every step; (2) sweeps: lengths 0..300, 256 byte values x 4 positions, 42 (remaining,needed) roll-over shapes "
            "confirmed by introspection, 34 oversize shapes, 7*10^4 words across pools; (3) all 56 reserved words through 5 routes "
            "and ~2000 near misses. The sweeps are repeated under ASan+UBSan. distinct_nontrivial = histories with a repeated word.",
       text="All operation sequences up to the bound plus deterministic boundary sweeps on the real string pool and "
@@ -267,7 +268,10 @@ check("C14",
            "after the table was built twice on the same Lexicon} x EVERY accessor of its interface (primitives, virtual extras, and the "
            "common accessors of Expr/Classic/Type/Directive/Stmt/Decl), 4 (quick) / 12 (thorough) operand rotations; for 45 kinds with "
            "settable links ALL subsets of links set (incl. links to untyped nodes), each on a fresh node; every Sequence reached through "
-           "an accessor is iterated and indexed at 0..size()+2, SIZE_MAX, SIZE_MAX/2, 2^32+size(); util::string::operator[]. Oracle: "
+           "an accessor is iterated and indexed at 0..size()+2, SIZE_MAX, SIZE_MAX/2, 2^32+size(); util::string::operator[]; "
+           "EVERY history of <= 5 (6) operations {add a member, read position 0 / last / middle, read position size() and size()+1 (refused), "
+           "iterate} on 11 kinds of growing sequence (parameters, bases, handlers, pragma tokens, captures, using-designators, enumerators, "
+           "expression list, scope members, a redeclaration set, block body) against a vector of the addresses the additions returned. Oracle: "
            "each call returns or throws something derived from std::logic_error; iteration visits exactly size() elements and agrees "
            "with position(i). distinct_nontrivial = distinct (interface, fingerprint) outcomes.",
       text="Complete enumeration of the accessor x state space on factory-built nodes with sanitizers as the oracle for "
